@@ -468,3 +468,23 @@ func (a *Act) calleeMods(callee *ssa.Function) (map[string]bool, bool) {
 	all := a.callMods(cc, mods, map[*ssa.Function]bool{}, 0)
 	return mods, all
 }
+
+// innermostLoop: the innermost loop whose body contains block b, or, for a block that leaves the
+// loop without returning to its head (an exit path), the innermost loop whose header dominates b.
+func (a *Act) innermostLoop(b *ssa.BasicBlock) *loopInfo {
+	var best *loopInfo
+	for _, li := range a.loops {
+		if li.blocks[b] && (best == nil || len(li.blocks) < len(best.blocks)) {
+			best = li
+		}
+	}
+	if best != nil {
+		return best
+	}
+	for _, li := range a.loops {
+		if li.header.Dominates(b) && (best == nil || best.header.Dominates(li.header)) {
+			best = li
+		}
+	}
+	return best
+}
